@@ -91,7 +91,9 @@ def orderOp (j : Json) : R Json := do
   let e ← vec n (.arr (a.map ofQ))
   let mink := (← strf j "mode") == "minkowski"
   let rev ← boolf j "reverse"
-  return .arr ((formOrder e mink rev).toArray.map fun i => Json.num (i.val : Int))
+  let key := if mink then minkowskiKey e else e
+  return Json.mkObj [("order", .arr ((formOrder e mink rev).toArray.map fun i => Json.num (i.val : Int))),
+    ("key", ofVec key)]
 
 /-- contract and conclusion residuals of `diagonalize_form`, exactly, on float data:
 `eigh` contract (`UᵀBU − diag eigs`, `UᵀU − 1`) and conclusion (`WᵀBW`: off-diagonal, ||diag|−1|, signs;
